@@ -410,4 +410,13 @@ def check(run):
 
 
 def replay(run, path):
+    payload, case = common.load_replay_case(path)
+    if payload.get('clause') == 'startup_failed_without_cause':
+        def again():
+            o = C04().run_impl(case)
+            if 'init_error' in o and not init_failure_possible(case['def']):
+                run.violation('monitor', dict(case=case, observed=o),
+                              f"the start-up of a timed FSM failed ({o['init_error']}) without a cause: {case['def']}",
+                              clause='startup_failed_without_cause', concrete=True)
+        return common.directed_replay(run, path, again)
     return common.std_replay(run, C04(), path)
